@@ -8,6 +8,6 @@ cd /verif
 export VX_EVIDENCE_DIR=$(mktemp -d /var/tmp/vx_mut_evidence.XXXXXX)
 PROPS="$@"
 [ -z "$PROPS" ] && PROPS=$(python3 -c "import json;print(json.load(open('/verif/seeded/$ID/meta.json'))['property'])")
-for p in $PROPS; do ./check $p | grep -E "^(VIOLATION|OK|INFRA|KNOWN|  failed)" ; echo "  -> exit $? (check $p, mutant $ID)"; done
+for p in $PROPS; do ./check $p | grep -E "^(VIOLATION|OK|INFRA|KNOWN|UNDECIDED|  failed|  undecided)" ; echo "  -> exit $? (check $p, mutant $ID)"; done
 rm -rf "$VX_EVIDENCE_DIR"
 cd /repo && git checkout HEAD -- . && [ -z "$(git status --porcelain -- src)" ] && echo "repo restored"
